@@ -23,13 +23,14 @@ import (
 func init() {
 	replayers["c03.gcore"] = func(c *Ctx, m map[string]any) map[string]any {
 		text := unhx(m["text"].(string))
-		return c03CoreCase(m["g"], text)
+		cr, _ := m["cr"].(bool)
+		return c03CoreCase(m["g"], text, cr)
 	}
 }
 
-func c03CoreCase(g any, text string) map[string]any {
+func c03CoreCase(g any, text string, cr bool) map[string]any {
 	j, errs := parser.Parse(text)
-	return map[string]any{"g": g, "text": hx(text),
+	return map[string]any{"g": g, "text": hx(text), "cr": cr,
 		"impl": J{"text": hx(text), "journal": journalJ(j), "errors": perrsJ(errs)}}
 }
 
@@ -47,11 +48,11 @@ func leanDriver() string {
 }
 
 // leanPrint sends the journals to the driver (one c03.gcore.print op per line) and returns the
-// printed texts in order.
-func leanPrint(gs []any) []string {
+// printed texts in order; crs[i] asks for CRLF line ends (GCore.printC true).
+func leanPrint(gs []any, crs []bool) []string {
 	var in bytes.Buffer
 	for i, g := range gs {
-		b, err := marshal(map[string]any{"op": "c03.gcore.print", "id": i, "g": g})
+		b, err := marshal(map[string]any{"op": "c03.gcore.print", "id": i, "g": g, "cr": crs != nil && crs[i]})
 		if err != nil {
 			panic(err)
 		}
@@ -182,11 +183,17 @@ func genGCoreJournal(c *Ctx, r *rand.Rand) []any {
 func genC03Core(c *Ctx) {
 	n := c.N(300, 20000)
 	gs := make([]any, n)
+	crs := make([]bool, n)
 	for i := range gs {
 		gs[i] = genGCoreJournal(c, c.R)
+		// one journal in three with CRLF line ends (theorem C03_faithful_core_crlf)
+		crs[i] = c.R.IntN(3) == 0
+		if crs[i] {
+			c.Count("gcore.crlf")
+		}
 	}
-	texts := leanPrint(gs)
+	texts := leanPrint(gs, crs)
 	for i, g := range gs {
-		c.Emit("c03.gcore", c03CoreCase(g, texts[i]))
+		c.Emit("c03.gcore", c03CoreCase(g, texts[i], crs[i]))
 	}
 }
